@@ -70,6 +70,10 @@ impl CowInt {
     #[verifier::external_body]
     pub fn is_one(&self) -> (r: bool) ensures r == (self.v@ == 1) { unimplemented!() }
     #[verifier::external_body]
+    pub fn is_zero(&self) -> (r: bool) ensures r == (self.v@ == 0) { unimplemented!() }
+    #[verifier::external_body]
+    pub fn is_negative(&self) -> (r: bool) ensures r == (self.v@ < 0) { unimplemented!() }
+    #[verifier::external_body]
     pub fn into_owned(self) -> (r: LazyBigint) ensures r.val() == self.v@ { unimplemented!() }
 }
 pub struct Rt;
